@@ -1,6 +1,7 @@
 import MitmVerif.Model.C50
 import MitmVerif.Model.C50_Https
 import MitmVerif.Model.C50_Codecs
+import MitmVerif.Model.C50_V6
 import Driver.Proto
 open MitmVerif Driver
 
@@ -80,6 +81,17 @@ def c50Step (line : String) : String :=
   | ["ip4e", c] =>
     match parseCps50 c with
     | some s => (match C50.Codecs.ip4Enc s with | some e => showBytes e | none => "raise")
+    | none => "bad-op"
+  | ["ip6", h] =>
+    match hexOr h with
+    | some b =>
+      match C50.Codecs.ip6Dec b with
+      | none => "none"
+      | some s => showCps50 s ++ " " ++ (match C50.Codecs.ip6Enc s with | some e => showBytes e | none => "raise")
+    | none => "bad-op"
+  | ["ip6e", c] =>
+    match parseCps50 c with
+    | some s => (match C50.Codecs.ip6Enc s with | some e => showBytes e | none => "raise")
     | none => "bad-op"
   | ["name", h] =>
     match hexOr h with
